@@ -38,6 +38,8 @@ def script_items(r, dels):
             items.append('full:' + {'fullz': '00' * 32, 'fullf': 'ff' * 32, 'fulle': r.hex(24) + '00' * 8, 'fulll': '00' * 8 + r.hex(24)}[d])
         elif d == 'shortz':
             items.append('short:' + '00' * r.choice([1, 16, 31]))
+        elif d == 'echo':                                     # claims 32 bytes and leaves the buffer as it found it
+            items.append('echo')
         elif d == 'short':
             items.append('short:' + r.hex(r.choice([1, 16, 31])))
         else:
@@ -132,6 +134,10 @@ def edge_histories(r):
     H.append(([I(), L((1 << 64) - 1), G(96), L((1 << 64) - 30), G(64), G(40)], ['full', 'full']))      # "as rarely as possible"
     H.append(([I(300), F(1000), G(40), F(64), F(65), G(33)], ['full']))                   # long personalisation and feeds
     H.append(([I(), R, R, G(64), R, G(5), G(0), G(27)], ['short', 'none', 'full', 'short']))
+    # the limit lowered below what was already produced and raised again before the next generate (the pending reseed is cancelled)
+    H.append(([I(), G(160), L(64), L(1024), G(96), G(40)], ['full'] * 6))
+    H.append(([I(), G(160), L(64), L(128), G(32), G(100)], ['full'] * 6))
+    H.append(([I(), G(96), F(3), F(4), L(32), L(96), G(64), L(32), L(4096), G(70)], ['full'] * 8))
     # the default limit, never configured: 1 KiB, however the output is split
     H.append(([I(), G(512), G(600), G(2040)], ["full"] * 6))
     H.append(([I(5), G(2048), G(1030)], ["full"] * 6))
@@ -292,8 +298,8 @@ def check_C17(chk):
         groups.append(history_lines(r, f"p{pi}", ops, list(p), obj=pi % 8))
     # the status depends on how many bytes were delivered, never on their value: deliveries that are all 00 / all FF / end or
     # begin with a run of 00, full and short, at init and at explicit and automatic reseeds
-    vals = ['fullz', 'fullf', 'fulle', 'fulll', 'shortz']
-    for vi, (a, b, c) in enumerate([(x, y, z) for x in vals for y in ('full', 'fullz', 'shortz') for z in ('fullz', 'none')]):
+    vals = ['fullz', 'fullf', 'fulle', 'fulll', 'shortz', 'echo']
+    for vi, (a, b, c) in enumerate([(x, y, z) for x in vals for y in ('full', 'fullz', 'shortz', 'echo') for z in ('fullz', 'none', 'echo')]):
         ops = [dict(op='pinit', arg=[0, 7][vi % 2]), G(40), R, G(33), L(32), G(64), G(32)]
         groups.append(history_lines(r, f"v{vi}", ops, [a, b, c, 'full'], obj=vi % 8))
     # NULL callback = system source = plain init; the OS call is interposed and scripted (full or failing)
@@ -341,7 +347,7 @@ def check_C17(chk):
 
 # ----------------------------------------------------------------------------- C18
 TRNG_SRC = 'src/random/tinyjambu-trng-dev-random.c'
-WRAPS = ('getrandom', 'getentropy', 'syscall', 'open', 'read', 'close')
+WRAPS = ('getrandom', 'getentropy', 'syscall', 'open', 'read', 'close', 'gettimeofday', 'clock_gettime', 'time')
 
 
 def build_trng_variant(chk, name, cc='gcc', opt='-O3'):
